@@ -131,10 +131,42 @@ not vote (the model's `calcBonus` adds the voter part only for a voting account)
 steps (multiply by the balance, divide by the factor, add the holder reward) follow. -/
 theorem neoCalculateBonus_branch (end_ r key reward tmp : Int) (err noVote : Bool) :
     (GoFuncs.neoCalculateBonus end_ r err noVote key reward tmp).1 = (if err ∨ noVote then r else tmp) ∧
+    ((GoFuncs.neoCalculateBonus end_ r err noVote key reward tmp).2.1 = "ok" ↔ err = false) ∧
     (GoFuncs.neoCalculateBonus end_ r err noVote key reward tmp).2.2 =
       (if err ∨ noVote then [] else ["tmp.Mul", "tmp.Div", "tmp.Add"]) := by
   unfold GoFuncs.neoCalculateBonus
   cases err <;> cases noVote <;> simp
+
+theorem sgn_eq_zero (x : Int) : sgn x = 0 ↔ x = 0 := by unfold sgn; split <;> (try split) <;> omega
+theorem sgn_eq_neg (x : Int) : sgn x = -1 ↔ x < 0 := by unfold sgn; split <;> (try split) <;> omega
+theorem cmpInt_lt (a b : Int) : cmpInt a b < 0 ↔ a < b := by unfold cmpInt; split <;> (try split) <;> omega
+theorem cmpInt_eq_neg (a b : Int) : cmpInt a b = -1 ↔ a < b := by unfold cmpInt; split <;> (try split) <;> omega
+
+/-- GAS.increaseBalance (native_gas.go:51-72), translated with its write to `*si` as a result component: it is the
+model's `gasInc` for every stored item, amount and required balance — a zero amount only checks the required balance
+(self-transfer of more than the balance fails) and leaves the item alone; a debit larger than the balance fails; else
+the balance is added to and the item rewritten, or set to nil when the balance becomes zero.  `code` is any encoding of
+storage items as integers; identifications: `acc.Balance` of the decoded item is `si.getD 0` (an empty item decodes to
+balance 0, decoding never fails), `Cmp` / `CmpAbs` / `Sign` of big integers. -/
+theorem gasIncreaseBalance_eq (l : Ledger) (si : Option Int) (amt : Int) (cb : Option Int) (code : Option Int → Int) :
+    GoFuncs.gasIncreaseBalance (code si) (si.getD 0) false (sgn amt) cb.isSome (cmpInt (si.getD 0) (cb.getD 0))
+        (cmpInt ((si.getD 0).natAbs : Int) (amt.natAbs : Int)) (sgn (si.getD 0 + amt)) (code (some (si.getD 0 + amt))) (code none)
+      = (0, (if (gasInc l si amt cb).ok then "ok" else "err"), code (gasInc l si amt cb).si,
+          if (gasInc l si amt cb).ok ∧ amt ≠ 0 then ["acc.Balance.Add"] else []) := by
+  unfold GoFuncs.gasIncreaseBalance gasInc
+  simp only [ne_eq, sgn_eq_zero, sgn_eq_neg, cmpInt_lt, cmpInt_eq_neg, Bool.false_eq_true, if_false]
+  by_cases h0 : amt = 0
+  · subst h0
+    cases cb with
+    | none => simp [belowOpt]
+    | some c =>
+      by_cases hb : si.getD 0 < c <;> simp [belowOpt, hb]
+  · by_cases hf : amt < 0 ∧ (si.getD 0).natAbs < amt.natAbs
+    · have h2 : ((si.getD 0).natAbs : Int) < (amt.natAbs : Int) := by omega
+      simp [h0, hf, h2]
+    · have h3 : ¬ (amt < 0 ∧ ((si.getD 0).natAbs : Int) < (amt.natAbs : Int)) := by
+        rintro ⟨a, b⟩; exact hf ⟨a, by omega⟩
+      by_cases hz0 : si.getD 0 + amt = 0 <;> simp [h0, hf, h3, hz0]
 
 /-- how `transfer` ends: a panic, `false` pushed, or the Transfer notification (postTransfer). -/
 def tpreOutcome : TPre → Option (List String)
@@ -189,6 +221,12 @@ theorem nep17Transfer_eq (t : Tok) (e : Env) (l : Ledger) (src dst : Nat) (amt :
           cases callerZero <;> cases fromEqCaller <;> cases witOk <;> cases b1 <;> cases b2 <;>
             simp [he, he', tpreOutcome, hu, hu2]
 
+-- non-vacuity: a debit of 7 from a balance of 5 fails; a debit of exactly 5 sets the item to nil; a zero amount with a
+-- required balance above the balance fails
+example : (GoFuncs.gasIncreaseBalance 50 5 false (-1) false 0 (-1) (-1) 99 0).2.1 = "err" ∧
+    GoFuncs.gasIncreaseBalance 50 5 false (-1) false 0 0 0 99 0 = (0, "ok", 0, ["acc.Balance.Add"]) ∧
+    (GoFuncs.gasIncreaseBalance 50 5 false 0 true (-1) 0 0 99 0).2.1 = "err" ∧
+    GoFuncs.gasIncreaseBalance 50 5 false 0 true 0 0 0 99 0 = (0, "ok", 50, []) := by decide
 -- non-vacuity: negative amount panics; no witness: false; debit fails: false; empty transfer skips the credit
 example : GoFuncs.nep17Transfer 1 2 (-5) 0 (-1) 0 true false true false false 0 0 false 0 false 0 = none ∧
     GoFuncs.nep17Transfer 1 2 5 0 1 0 true false false false false 0 0 false 0 false 0 = some ["popArgsPushRes"] ∧
